@@ -92,14 +92,16 @@ Section ExecCone.
 End ExecCone.
 
 (* Amended (dynamic) inputs, deferral, failing steps: the engine [a_build] of model/Engine.v with the
-   code's gating.  The full statement (kept visible; what is proved of it: see
-   proofs/NoopExecProofs.v and design.d/C04.md).  [remb]/[adyn]: the amended inputs the step
-   remembered from its previous run take part in the check like declared ones. *)
+   code's gating.  [remb]/[adyn]: the amended inputs the step remembered from its previous run take
+   part in the check like declared ones.  (step, true) in [a_build_log] = the command was executed
+   (also when it then deferred or failed). *)
 Section ExecConeAmend.
   Variable run : N -> list (option N) -> list (option N) -> N -> N.
   Variable amend : N -> list (option N) -> list N.
   Variable fails : N -> list (option N) -> list (option N) -> bool.
 
+  Definition a_build_from (proj todo : project) (y : asys) : asys :=
+    fold_left (fun y s => a_step_build run amend fails true proj s y) todo y.
   Definition a_ran (proj : project) (y1 : asys) (id : N) : Prop :=
     In (id, true) (a_build_log run amend fails true proj proj y1).
 
@@ -111,14 +113,29 @@ Section ExecConeAmend.
     \/ (exists p q, In p (inp s ++ adyn y (sid s)) /\ In q proj /\ In p (out q) /\ sid q <> sid s /\
                     a_ran proj y1 (sid q) /\ fs (abase z) p <> fs (abase y) p)
     (* a remembered amended input is not available when the step gets its turn (its producer is
-       blocked or failed): the check cannot pass, the command runs to find out what it needs now *)
-    \/ (exists p, In p (adyn y (sid s)) /\ avail proj (abase z) p = None).
+       blocked, failed or no longer there): the check cannot pass, the command runs to find out what
+       it needs now (validate_dynamic_job -> _reset_step_to_pending) *)
+    \/ (exists p d r, In p (adyn y (sid s)) /\ proj = d ++ s :: r /\
+                      avail proj (abase (a_build_from proj d y1)) p = None).
 
-  Definition C04_exec_cone_amend_full : Prop :=
+  (* the states between builds: a SUCCEEDED step has a recorded trace that matches the present
+     contents of its declared ++ remembered amended inputs, its variables and its outputs (clause
+     ia_K of the invariant InvA of proofs/EngineAmendFull.v) *)
+  Definition K_a (proj : project) (y : asys) : Prop :=
+    forall q, In q proj -> K_step (abase y) (remb y q).
+
+  Definition C04_exec_cone_amend : Prop :=
     forall (proj : project) (y : asys) (w : world) (s : step),
+      NoDup (map sid proj) -> NoDup (outs proj) -> In s proj -> K_a proj y ->
+      a_ran proj (resync_a proj y w) (sid s) ->
+      exec_cause_a proj y (resync_a proj y w) (build_world_a run amend fails true proj w y) s.
+
+  (* for ALL histories of worlds from an empty .stepup (the hypothesis K_a discharged): stated, not
+     proved here -- C01 proves the invariant for the UNGATED engine only (EngineAmendFull.v) *)
+  Definition C04_exec_cone_amend_full : Prop :=
+    forall (proj : project) (ws : list world) (w : world) (s : step),
       wf_a amend proj -> In s proj ->
-      (* y was left by a build: no stale success over declared ++ remembered inputs *)
-      (forall q, In q proj -> K_step (abase y) (remb y q)) ->
+      let y := fold_left (fun y x => build_world_a run amend fails true proj x y) ws empty_asys in
       a_ran proj (resync_a proj y w) (sid s) ->
       exec_cause_a proj y (resync_a proj y w) (build_world_a run amend fails true proj w y) s.
 End ExecConeAmend.
@@ -164,4 +181,33 @@ Fixpoint trace_cone_hist (run : N -> list (option N) -> list (option N) -> N -> 
     (build_log run proj proj y1,
      map (fun x => (fst x, negb (oN_eqb (fs y2 (fst x)) (fs y (fst x))))) echg)
       :: trace_cone_hist run proj y2 rest
+  end.
+
+(* the same when the plan changes between the builds (a rerun plan defines P' instead of P:
+   [retarget]): one project per observed build *)
+Fixpoint check_cone_dyn (run : N -> list (option N) -> list (option N) -> N -> N)
+         (P : project) (y : sys) (phases : list (project * cone_phase)) : bool :=
+  match phases with
+  | [] => true
+  | (P', (src, env, eran, eskip, echg)) :: rest =>
+    let y1 := resync P' (retarget P P' y) (src_of src, src_of env) in
+    let y2 := build run P' y1 in
+    let log := build_log run P' P' y1 in
+    wf P' &&
+    set_eqb (map fst (filter snd log)) eran &&
+    forallb (fun x => memN x eskip) (map fst (filter (fun x => negb (snd x)) log)) &&
+    forallb (fun x => Bool.eqb (negb (oN_eqb (fs y2 (fst x)) (fs y (fst x)))) (snd x)) echg &&
+    check_cone_dyn run P' y2 rest
+  end.
+Fixpoint trace_cone_dyn (run : N -> list (option N) -> list (option N) -> N -> N)
+         (P : project) (y : sys) (phases : list (project * cone_phase))
+  : list (list (N * bool) * list (N * bool)) :=
+  match phases with
+  | [] => []
+  | (P', (src, env, _, _, echg)) :: rest =>
+    let y1 := resync P' (retarget P P' y) (src_of src, src_of env) in
+    let y2 := build run P' y1 in
+    (build_log run P' P' y1,
+     map (fun x => (fst x, negb (oN_eqb (fs y2 (fst x)) (fs y (fst x))))) echg)
+      :: trace_cone_dyn run P' y2 rest
   end.
